@@ -202,6 +202,17 @@ func (g *wgen) corrupt(tr *hx.TRef, w hx.Val, label string) (hx.Val, bool) {
 		return hx.Nil(), true
 	}
 	if tr.List != nil {
+		if rapid.IntRange(0, 5).Draw(t, label+"bareMember") == 0 {
+			// a member written bare where the list is expected (GraphQL proper would wrap it, ggql
+			// refuses it; what must never happen is that it arrives as it is), at this level or - for
+			// a list of lists - one level too shallow
+			base := *tr.List
+			base.NonNull = true
+			gw := g.good(&base, label+"bm")
+			if gw.K != "list" || tr.List.List != nil {
+				return gw, true
+			}
+		}
 		if len(w.L) == 0 || rapid.IntRange(0, 5).Draw(t, label+"listkind") == 0 {
 			// a wrong element appended
 			base := *tr.List
